@@ -9,14 +9,15 @@ using namespace gdstk;
 
 static std::string g_tmpdir;
 
+// t1 is the all-zero tag (layer 0, type 0): containers keyed by tags must not treat it as "empty"
 static Tag tag_of(const std::string& t) {
-    int n = atoi(t.c_str() + 1);
+    int n = atoi(t.c_str() + 1) - 1;
     return make_tag((uint32_t)n, (uint32_t)(2 * n));
 }
 static std::string tag_name(Tag t) {
     uint32_t n = get_layer(t);
     if (get_type(t) != 2 * n) return "t?" + std::to_string(n) + "/" + std::to_string(get_type(t));
-    return "t" + std::to_string(n);
+    return "t" + std::to_string(n + 1);
 }
 
 struct World {
@@ -136,6 +137,8 @@ static void build_world(World& w, const J& init) {
     for (auto& kv : init["tagmaps"].obj) {
         TagMap tm = {};
         for (auto& e : kv.second.obj) tm.set(tag_of(e.first), tag_of(e.second.s()));
+        // entries for tags nothing uses, so that the map has grown past its first capacity
+        for (uint32_t q = 0; q < 4; q++) tm.set(make_tag(100 + 2 * q, 1), make_tag(101 + 2 * q, 1));
         w.tagmaps[kv.first] = tm;
     }
 }
